@@ -48,7 +48,7 @@ CHECKS["C02"] = dict(
          "points reduces to decode(unmodified input) with only length/read/mode guards, and reachable non-debug panic sites are tabled with reasons.",
     note=OTHER_NOTE + " 'ISQRT answers square? correctly' is C09; primitive reduction/serialisation is C10/C11.", design="DESIGN.md §4 C02")
 CHECKS["C03"] = dict(
-    technique="static: TERM conformance of the encoder on projective coordinates, homogeneity weights of the extracted polynomial under projective scaling (HOMOG), invariance of the extracted term under the coset involution (X,Y) -> (-X,-Y) (COSET), observation funnel with exactness obligations over all encoding entry points, provenance of the affine<->projective conversion sites (C06's PROV instances), identity-form forwarding (into_affine etc.)",
+    technique="static: TERM conformance of the encoder on projective coordinates, homogeneity weights of the extracted polynomial under projective scaling (HOMOG), invariance of the extracted term under the coset involution (X,Y) -> (-X,-Y) (COSET), observation funnel with exactness obligations over all encoding entry points, overrides of provided core/subtle trait methods on the point types judged against the trait default (OVERRIDE), provenance of the affine<->projective conversion sites (C06's PROV instances), identity-form forwarding (into_affine etc.)",
     category="other",
     text="The encoder equals the specification's map on projective (X:Y:Z:T) as a polynomial function; independently of the spec its output has weight 0 under scaling and every "
          "sign test looks at a weight-0 quantity; all 13 encoding entry points (conversions, serialisers, Debug/Display, ToConstraintField) observe self only through bytes(encode(self)).",
@@ -76,17 +76,17 @@ CHECKS["C06"] = dict(
     note=OTHER_NOTE + " Assumes decode/Elligator outputs are valid (Decaf theorems; their conformance is C01/C07) and that arkworks group operations stay in the group.",
     design="DESIGN.md §4 C06")
 CHECKS["C08"] = dict(
-    technique="static: canonical polynomial form of the PartialEq condition (TERM), observation-class shield dataflow over the Hash impls' hasher writes (OBS), identity-predicate normal form and identity-value denotation (IDENT), including predicates inherited from default methods of external traits (the driver lists the provided methods an impl does not override)",
+    technique="static: canonical polynomial form of the PartialEq condition (TERM), observation-class shield dataflow over the Hash impls' hasher writes (OBS), identity-predicate normal form and identity-value denotation (IDENT), including predicates inherited from default methods of external traits (the driver lists the provided methods an impl does not override), and overrides of provided core/subtle trait methods (ne, hash_slice, conditional_assign/swap, clone_from) judged against the trait default or reported as not judgeable (OVERRIDE)",
     category="other",
     text="Equality is X1*Y2 - Y1*X2 = 0 on the operands' own coordinates and nothing else; Hash may observe self only through bytes(encode(self)); every identity predicate "
          "normalises to X == 0 and every identity value denotes the neutral element - for all representatives at once.",
     note=OTHER_NOTE + " 'equal iff same encoding' beyond conformance of eq and encode is Decaf section 4.5 (assumed).", design="DESIGN.md §4 C08")
 CHECKS["C10"] = dict(
-    technique="static: forwarding rule over all 174 operator/iterator impls and 57 arithmetic methods of the field layer down to the backend primitive (FWD), fold identity by evaluated value (IDENT), exponent-coverage loop template (EXP), Montgomery/canonical typestate at raw-limb constructors (DOM), limb-wise selection shape (SELECT), inverse zero-guard and divstep driver facts (INV), coverage table over every function of the wrappers' arkworks field-trait impls with the remaining ones interpreted (COVER)",
+    technique="static: forwarding rule over all 174 operator/iterator impls and 57 arithmetic methods of the field layer down to the backend primitive (FWD), fold identity by evaluated value (IDENT), exponent-coverage loop template (EXP), Montgomery/canonical typestate at raw-limb constructors (DOM), limb-wise selection shape (SELECT), inverse zero-guard, divstep driver facts and the state-transformer dataflow of the safegcd loop (INV), is_sentinel justified as false on reduced elements (SENTINEL), PartialEq / Default forms, overrides of provided core/subtle trait methods against the trait default (OVERRIDE), coverage table over every function of the wrappers' arkworks field-trait impls with the remaining ones interpreted (COVER)",
     category="other",
     text="Decides the hand-written wrapper and forwarding layer of all three fields in both backends: each impl denotes the right ring operation on its own operands in its own order, "
          "Sum/Product fold from 0/1, power/pow_le_limbs consume the whole exponent with a correct square-and-multiply template, raw limbs reach constructors only in the domain they expect, "
-         "selection is limb-wise ITE over all limbs, inverse(0) is None and the Bernstein-Yang driver uses this field's fiat functions and iteration count.",
+         "selection is limb-wise ITE over all limbs, == is equality of the operands, inverse(0) is None and the Bernstein-Yang driver threads (d,f,g,v,r) from the right initial state through exactly I divsteps of this field to precomp * (+-v).",
     note=OTHER_NOTE + " The arithmetic primitives themselves (arkworks Fp<MontBackend>, the Coq-proved fiat-crypto bodies) are trusted and NOT analysed; mutations inside fiat.rs are out of reach.",
     design="DESIGN.md §4 C10")
 
@@ -99,7 +99,7 @@ CHECKS["C07"] = dict(
          "square-root routine (VALID). NOT decided: that the optimised routine equals the unoptimised Elligator 2 map (an algebraic identity about square roots).",
     note=OTHER_NOTE + " Trusted: spec/decaf_spec.py transcription; ISQRT contract (C09); group addition (C04).", design="DESIGN.md §4 C07")
 CHECKS["C09"] = dict(
-    technique="static: structural necessary conditions only - zero-case return flows, mask-below-length index rule, window/shift/pow-chain integer facts, table-filling loop summaries, constant folding of the Lazy statics, Euler split and constant-time Tonelli-Shanks loop template, Field::legendre shape, exactly one computed return flow besides the zero cases, Field::sqrt inherited or interpreted against the routine's contract (SQRT)",
+    technique="static: structural necessary conditions only - zero-case return flows, mask-below-length index rule, window/shift/pow-chain integer facts, table-filling loop summaries, constant folding of the Lazy statics, Euler split and constant-time Tonelli-Shanks loop template, Field::legendre shape, exactly one computed return flow besides the zero cases, squaring towers x5^(2^8..2^39), keys and result as pure products of table entries, the returned flag tied to the nonsquare_lookup index, Field::sqrt inherited or interpreted against the routine's contract (SQRT)",
     category="other",
     text="LARGELY NOT APPLICABLE to static analysis: that the routines return a correct root and flag for every (num, den), and that no HashMap lookup misses, is number theory over "
          "data-dependent table walks and is NOT decided. Decided are necessary conditions that realistic edits break while the 10000-case proptest keeps passing: the two zero cases in "
@@ -116,7 +116,7 @@ CHECKS["C11"] = dict(
     note=OTHER_NOTE + " ASSUMED (arithmetic, not shape): from_raw_bytes (arkworks from_le_bytes_mod_order / fiat from_bytes+to_montgomery on unreduced input) reduces modulo p. Display/FromStr are checked for their decimal-Horner / canonical-integer shape only.",
     design="DESIGN.md §4 C11")
 CHECKS["C12"] = dict(
-    technique="static sibling cross-check of the two feature configurations: canonical-form equality of decode/encode/Elligator under one normaliser, FWD denotations of every shared operator form, identical glue-level terms of the shared field source against both wrappers, constants by canonical value, public-signature parity",
+    technique="static sibling cross-check of the two feature configurations: canonical-form equality of decode/encode/Elligator under one normaliser, FWD denotations of every shared operator form, identical glue-level terms of the shared field source against both wrappers, constants by canonical value, public-signature parity, C02's decoding entry-point instances, C08's observers and C10's field layer in both builds",
     category="other",
     text="The arkworks build and the minimal build are compared as programs (576 obligations): decode value and guard set, encode and Elligator are the same functions; all operator forms "
          "denote the same abstract operation (minimal formulas tied to the group law by polynomial reduction, ladder by template); 133 shared field-layer routines yield identical terms "
@@ -142,7 +142,7 @@ CHECKS["C14"] = dict(
     note=OTHER_NOTE + " NOT decided: absence of other spurious solutions of the whole constraint system (algebra over Fq). The known finding is recorded in known_findings.txt and is not repaired because the repair changes every circuit and the pinned keys.",
     design="DESIGN.md §4 C14, §7")
 CHECKS["C15"] = dict(
-    technique="static (cfg r1cs): two-level taint analysis (availability < value) from witness values to control flow / constraint structure over all 81 gadget functions (TAINT), public-input allocation term = ToConstraintField term (INPUT)",
+    technique="static (cfg r1cs): two-level taint analysis (availability < value) from witness values to control flow / constraint structure over all 81 gadget functions (TAINT), public-input allocation term = ToConstraintField term (INPUT), C13's honest-witness and AllocVar default-method instances",
     category="other",
     text="Clauses 1-2 of the property: no variable-allocating or constraint-emitting effect (691 examined) is control-dependent on a witness value or receives one outside an allocation closure, so the "
          "constraint system is the same for every input and in setup mode; an element allocated as public input is exactly one Fq instance variable equal to vartime_compress_to_field(value), which "
